@@ -174,6 +174,10 @@ func c01Jobs(tier string) []string {
 		add(EnumWorlds(bases, 0, 1)[2:], "e0p", "plainK4")
 		add(EnumWorlds([]string{"W0"}, 1, 0)[1:], "s1c", "plainK3")
 		add(EnumWorlds([]string{"W0"}, 1, 0)[1:], "e0p", "decK2")
+		// abstract types below object fields: decorations (named fragments used twice, aliases, ...) on 3-field operations
+		for _, w := range []string{"W0+union-under-object", "W0+entity-node-typed-field", "Wmin+union-under-object", "W0+interface-entities", "W0+value-type-entity-ref"} {
+			jobs = append(jobs, w+"|e0p|decK3")
+		}
 		return jobs
 	}
 	cfgs := []string{"e0p", "e0c", "e1p", "e1c", "s0p", "s0c", "s1p", "s1c"}
